@@ -26,6 +26,8 @@
 #include <sys/epoll.h>
 #include <sys/select.h>
 #include <signal.h>
+#include <sys/socket.h>
+#include <netinet/in.h>
 
 #ifndef V_MAXSZ
 #define V_MAXSZ ((size_t)1 << 40)   /* object sizes are below this by precondition of the specs */
